@@ -150,7 +150,23 @@ bool StepScript(InterpreterEnv& env)
         env.execdata_history.push_back(env.execdata);
         env.opcode_pos_history.push_back(env.opcode_pos);
 
-        if (!StepScript(env, pc)) {
+        bool step_ok = false;
+        try {
+            step_ok = StepScript(env, pc);
+        } catch (...) {
+            // a throwing operation (e.g. script number overflow) must not leave a stale history entry behind:
+            // a later rewind would pop it and move curr_op_seq below the start of the script
+            env.stack_history.pop_back();
+            env.altstack_history.pop_back();
+            env.pc_history.pop_back();
+            env.nOpCount_history.pop_back();
+            env.vfExec_history.pop_back();
+            env.pbegincodehash_history.pop_back();
+            env.execdata_history.pop_back();
+            env.opcode_pos_history.pop_back();
+            throw;
+        }
+        if (!step_ok) {
             // undo above pushes
             env.stack_history.pop_back();
             env.altstack_history.pop_back();
